@@ -738,6 +738,15 @@ impl ContextRefOps for ContextRef {
 
 impl Drop for Context {
     fn drop(&mut self) {
+        // a context dropped before it reached a terminal state (e.g. its handshake
+        // failed) is recorded as failed instead of being left without an outcome
+        if !matches!(
+            self.state(),
+            ContextState::Terminated | ContextState::ErrorOccured
+        ) {
+            self.set_state(ContextState::ErrorOccured)
+                .set_error("connection dropped before completion".to_owned());
+        }
         trace!("Context dropped: {}", self);
         self.state.gc_list.lock().unwrap().push(self.props.clone());
     }
